@@ -11,6 +11,33 @@ INVS = ["C05_Children", "C05_Descendants", "C05_NeverOlder", "C05_StepBound", "C
 TICK = 50
 
 
+
+
+class Hang(Exception):
+    pass
+
+
+BUDGET = 20
+
+
+def bounded(fn):
+    """fn() under its own alarm: a walk that does not end is a finding about this
+    case, not the death of the worker."""
+    import signal
+
+    def onalarm(sig, frm):
+        raise Hang()
+    old = signal.signal(signal.SIGALRM, onalarm)
+    left = signal.alarm(0)
+    signal.setitimer(signal.ITIMER_REAL, BUDGET)
+    try:
+        return fn()
+    finally:
+        signal.setitimer(signal.ITIMER_REAL, 0)
+        signal.signal(signal.SIGALRM, old)
+        if left:
+            signal.alarm(left)
+
 def consts(n, starts=(0, 1, 2), all_listed=False, fixes=None):
     pids = set(range(1, n + 1))
     return {"Pids": pids, "PPids": pids | {0, 9}, "Starts": set(starts), "AllListed": all_listed,
@@ -64,10 +91,10 @@ def run_chunk(cases):
             ps.pids()
             p = ps.Process(s)
             if mode in ("plain", "swept"):
-                got = sorted(c.pid for c in p.children())
+                got = sorted(c.pid for c in bounded(p.children))
                 if got != sorted(e["children"]) or len(got) != len(set(got)):
                     bad.append("children() -> %r, specification: %r" % (got, sorted(e["children"])))
-                got = [c.pid for c in p.children(recursive=True)]
+                got = [c.pid for c in bounded(lambda: p.children(recursive=True))]
                 if sorted(got) != sorted(e["descendants"]) or len(got) != len(set(got)):
                     bad.append("children(recursive=True) -> %r, specification: %r" % (got, sorted(e["descendants"])))
                 par = p.parent()
@@ -93,11 +120,13 @@ def run_chunk(cases):
                 for name, fn in (("children", p.children), ("children(recursive)", lambda: p.children(recursive=True)),
                                  ("parent", p.parent), ("parents", p.parents)):
                     try:
-                        fn()
+                        bounded(fn)
                         bad.append("%s() returned for a recycled caller PID" % name)
                     except ps.NoSuchProcess as ex:
                         if ex.pid != s:
                             bad.append("%s(): NoSuchProcess carries pid %r" % (name, ex.pid))
+                    except Hang:
+                        bad.append("%s() did not return within %d s for a recycled caller PID (NoSuchProcess expected)" % (name, BUDGET))
             elif mode.startswith("vanish"):
                 # a listed process disappears at access k of the recursive walk
                 _, victim, k = mode.split(":")
@@ -111,6 +140,8 @@ def run_chunk(cases):
                 if not (lo <= got <= hi):
                     bad.append("children(recursive=True) with pid %d vanishing at access %d -> %r, must lie between %r and %r"
                                % (victim, k, sorted(got), sorted(lo), sorted(hi)))
+        except Hang:
+            bad.append("a tree walk did not return within %d s" % BUDGET)
         except Exception as ex:  # noqa: BLE001
             bad.append("raised %r" % (ex,))
         if bad:
